@@ -1,5 +1,10 @@
 #![allow(dead_code, clippy::all)]
 mod c08;
+mod c09;
+mod c10;
+mod gentree;
+mod jtd;
+mod mutate;
 mod c16;
 mod scratch;
 
@@ -14,6 +19,8 @@ fn main() {
     let replay = args.iter().position(|a| a == "--replay").and_then(|i| args.get(i + 1)).cloned();
     let code = match id {
         "C08" => c08::run(tier, replay),
+        "C09" => c09::run(tier, replay),
+        "C10" => c10::run(tier, replay),
         "C16" => c16::run(tier, replay),
         _ => {
             eprintln!("usage: gencheck C07|C08|C09|C10|C16|C17|C18|C19 quick|thorough");
